@@ -31,13 +31,6 @@ Definition agrees (r : option cresult) (o : observed) : bool :=
   | None => false
   end.
 
-(* SPEC with a search-after sentinel: the first [size] of the sorted matches that sort strictly
-   after the sentinel (which takes every match's own hit number, so equal keys do not pass) *)
-Definition passes_after (so : sort_order) (a : after_doc) (d : dmatch) : bool :=
-  0 <? compare so d {| hit := hit d; did := []; score := sa_score a; keys := sa_keys a |}.
-Definition spec_after (so : sort_order) (size : nat) (a : after_doc) (ms : list rmatch) : list dmatch :=
-  firstn size (filter (passes_after so a) (sorted_matches so ms)).
-
 (* the sort keys alone separate any two matches (so SearchAfter/SearchBefore lose nothing) *)
 Fixpoint adjacent_keys_differ (so : sort_order) (l : list dmatch) : bool :=
   match l with
